@@ -29,6 +29,7 @@ type docGen struct {
 	ogAlias string
 	accented bool
 	r2 *Rand
+	t1 string
 }
 
 var latinStems = []string{"alpha", "bravo", "candle", "delta", "ember", "fjord", "garnet", "harbor", "island", "jungle",
@@ -738,6 +739,7 @@ func (g *docGen) head(host string) {
 		sep = Pick(g.r, []string{"：", "｜", "・", "—", "–", "·", "→", "«", "//", "::", "|", ":", "-"})
 	}
 	t1 := g.words(g.r.Range(1, 7))
+	g.t1 = t1
 	title := t1
 	if sep != "" {
 		title = t1 + sep + g.words(g.r.Range(1, 4))
@@ -894,7 +896,13 @@ func (g *docGen) body(host string) string {
 			g.f("h1-inline-children")
 			g.wf(`<h1><span class="mw-headline">%s</span> <small>%s</small><span class="mw-editsection">[<a href="/w?action=edit&section=1">edit</a>]</span></h1>`+"\n", g.words(g.r.Range(2, 6)), g.word())
 		default:
-			g.wf("<h1>%s</h1>\n", g.words(g.r.Range(2, 8)))
+			h := g.words(g.r.Range(2, 8))
+			if g.r2 != nil && g.t1 != "" && g.r2.P(1, 2) {
+				// the headline is the first part of the window title, as on most sites
+				g.f("h1-equals-title-part")
+				h = g.t1
+			}
+			g.wf("<h1>%s</h1>\n", h)
 		}
 	}
 	if g.r.P(1, 8) {
@@ -1039,6 +1047,10 @@ func (g *docGen) body(host string) string {
 	return pageURL
 }
 
+// forceLang overrides the script of the generated words (see DocumentInLanguage); -1: as drawn.
+// Generation is single-threaded per process (plans are generated by one goroutine).
+var forceLang = -1
+
 // Document generates one page from a seed.
 func Document(seed uint64) GenDoc {
 	r := Derive(seed, 0xd0c)
@@ -1054,6 +1066,9 @@ func Document(seed uint64) GenDoc {
 	} else if r.P(1, 12) {
 		g.lang = 2
 		g.f("hangul")
+	}
+	if forceLang >= 0 {
+		g.lang = forceLang
 	}
 	host := Pick(r, []string{"example.com", "www.example.com", "news.example.co.uk", "example.com:8080", "xn--bcher-kva.example"})
 	if r.P(9, 10) {
@@ -1082,7 +1097,35 @@ func Document(seed uint64) GenDoc {
 	if url == "" && r.P(2, 3) {
 		url = "http://" + host + Pick(r, []string{"/", "/article", "/story/page/2", "/a/b/c.html?x=1#frag", "", "/story/", "/x?a=2&b=2"})
 	}
-	d := GenDoc{Bytes: []byte(g.sb.String()), URL: url, UTF8: true}
+	page := g.sb.String()
+	if g.r2.P(1, 4) {
+		// the attributes of <html>, <head> and <body> as templates emit them: any subset, in any order
+		g.f("root-attr-mix")
+		pool := []string{`lang="en"`, `class="no-js"`, `xmlns="http://www.w3.org/1999/xhtml"`, `xmlns:og="http://ogp.me/ns#"`, `xmlns:fb="http://ogp.me/ns/fb#"`, `xmlns:article="http://ogp.me/ns/article#"`,
+			`prefix="og: http://ogp.me/ns#"`, `itemscope`, `itemtype="http://schema.org/Article"`, `dir="ltr"`, `id="top"`, `data-theme="dark"`, `manifest="x.appcache"`, `xml:lang="en"`, `hidden`, `style="display:none"`, `class="article hentry"`, `itemid="#a"`, `itemref="author-box"`, `vocab="http://schema.org/"`, `typeof="Article"`}
+		mix := func() string {
+			var out string
+			for i := 0; i < g.r2.Range(1, 6); i++ {
+				out += " " + Pick(g.r2, pool)
+			}
+			return out
+		}
+		for _, tag := range []string{"<html", "<head", "<body"} {
+			if !g.r2.P(2, 3) {
+				continue
+			}
+			if i := strings.Index(page, tag); i >= 0 {
+				if j := strings.Index(page[i:], ">"); j >= 0 {
+					keep := ""
+					if g.r2.Bool() {
+						keep = page[i+len(tag) : i+j]
+					}
+					page = page[:i] + tag + mix() + keep + page[i+j:]
+				}
+			}
+		}
+	}
+	d := GenDoc{Bytes: []byte(page), URL: url, UTF8: true}
 	for f := range g.feat {
 		d.Features = append(d.Features, f)
 	}
